@@ -242,6 +242,10 @@ pub struct Finding {
     /// several times, and the finding stays listed (and its exclusion on) even when no attempt reproduces it
     #[serde(default)]
     pub timing_dependent: bool,
+    /// for timing-dependent panics that cannot be excluded by construction: a panic whose message contains this text is
+    /// attributed to this finding (the case ends as a known hit) while the finding is listed and active
+    #[serde(default)]
+    pub panic_contains: String,
 }
 
 pub fn load_findings(prop: &str) -> Vec<Finding> {
@@ -324,6 +328,16 @@ thread_local! {
     static LAST_PANIC: std::cell::RefCell<Option<String>> = const { std::cell::RefCell::new(None) };
 }
 
+/// (finding id, text) of the listed findings that are identified by their panic message
+fn panic_patterns() -> &'static Vec<(String, String)> {
+    static P: std::sync::OnceLock<Vec<(String, String)>> = std::sync::OnceLock::new();
+    P.get_or_init(|| {
+        let p = Path::new(VERIF_ROOT).join("known_findings.jsonl");
+        let Ok(s) = std::fs::read_to_string(p) else { return vec![] };
+        s.lines().filter_map(|l| serde_json::from_str::<Finding>(l).ok()).filter(|f| f.status == "known" && !f.panic_contains.is_empty()).map(|f| (f.id, f.panic_contains)).collect()
+    })
+}
+
 pub fn install_panic_hook() {
     std::panic::set_hook(Box::new(|info| {
         let loc = info
@@ -362,6 +376,12 @@ fn guarded<P: Property>(p: &P, input: &P::Input, obs: &mut Obs, env: &Env) -> Ch
             let m = LAST_PANIC
                 .with(|p| p.borrow_mut().take())
                 .unwrap_or(payload);
+            if !env.strict {
+                if let Some((id, _)) = panic_patterns().iter().find(|(id, pat)| env.active_known.contains(id) && m.contains(pat.as_str())) {
+                    obs.known_hit(id, format!("panic attributed to the listed finding: {m}"));
+                    return Ok(());
+                }
+            }
             Err(Failure::new("panic", m))
         }
     }
